@@ -81,12 +81,21 @@ fn llvm_half(rep: &mut Report, rng: &mut Rng) {
             let id = format!("profile-{}-{}", c, i);
             ids.push(id.clone());
             match rng.below(3) {
+                // half of the profiles share the file name `default.profraw` (what every instrumented
+                // binary writes) and differ only by their directory
                 0 => {
-                    let p = if rng.chance(1, 2) { format!("profdir/p{}.profraw", i) } else { format!("profdir/sub/p{}.profraw", i) };
+                    let p = if rng.chance(1, 2) {
+                        std::fs::create_dir_all(dir.join(format!("profdir/svc{}", i))).unwrap();
+                        format!("profdir/svc{}/default.profraw", i)
+                    } else if rng.chance(1, 2) {
+                        format!("profdir/p{}.profraw", i)
+                    } else {
+                        format!("profdir/sub/p{}.profraw", i)
+                    };
                     std::fs::write(dir.join(&p), &id).unwrap();
                     dir_used = true;
                 }
-                1 => zip_entries.push((format!("z/p{}.profraw", i), id)),
+                1 => zip_entries.push((if rng.chance(1, 2) { format!("z/svc{}/default.profraw", i) } else { format!("z/p{}.profraw", i) }, id)),
                 _ => {
                     let p = format!("plain{}.profraw", i);
                     std::fs::write(dir.join(&p), &id).unwrap();
